@@ -61,7 +61,7 @@ def gen_cases(tier, seed):
         for rep in range(2 if q else 10):
             yield "history", {"salt": rng.getrandbits(40), "max": 64, "start": f"files:{nf}", "fork": rep % 2 == 1}
     for i in range(150 if q else 3000):
-        yield "crash", {"salt": rng.getrandbits(40), "max": rng.choice([64, 100]), "variant": ["buffered", "writethrough", "torn"][i % 3],
+        yield "crash", {"salt": rng.getrandbits(40), "max": rng.choice([64, 100]), "variant": ["buffered", "writethrough", "torn", "exception", "exception_torn"][i % 5],
                         "start": ["empty", "prepopulated"][i % 2]}
     for i in range(6 if q else 60):
         yield "strace", {"salt": rng.getrandbits(40), "max": 64, "call": ["write", "openat", "close"][i % 3]}
@@ -69,8 +69,8 @@ def gen_cases(tier, seed):
 
 def required(tier):
     return {"hist.batches": 3000, "hist.rollover.exact_fit": 200, "hist.rollover.one_byte_over": 200, "hist.rollover.new_file": 500,
-            "hist.start.twelve_full": 50, "net.regtest": 40, "container.bytearray": 30, "container.memoryview": 30, "net.testnet": 40, "hist.start.n_files": 20, "hist.start.path_with_dat_or_blk": 10, "hist.forked_batches": 100, "crash.points": 800, "crash.variant.torn": 150,
-            "crash.variant.writethrough": 150, "crash.variant.buffered": 150, "audit.opens": 3000, "exh.histories": 1500}
+            "hist.start.twelve_full": 50, "net.regtest": 40, "container.bytearray": 30, "container.memoryview": 30, "net.testnet": 40, "hist.start.n_files": 20, "hist.start.path_with_dat_or_blk": 10, "hist.forked_batches": 100, "crash.points": 800, "crash.variant.torn": 100,
+            "crash.variant.writethrough": 100, "crash.variant.buffered": 100, "crash.variant.exception": 100, "crash.variant.exception_torn": 100, "audit.opens": 3000, "exh.histories": 1500}
 
 
 def exhaustive(tier, counts):
@@ -317,10 +317,10 @@ class _CrashFile:
         st = self.state
         st["step"] += 1
         if st["step"] == st["crash_at"]:
-            if st["variant"] == "torn" and len(data) > 1:
+            if st["variant"] in ("torn", "exception_torn") and len(data) > 1:
                 self.f.write(data[: st["torn_bytes"] % len(data)])
                 self.f.flush()
-            os._exit(9)
+            _fault(st)
         r = self.f.write(data)
         if st["variant"] in ("writethrough", "torn"):
             self.f.flush()
@@ -330,7 +330,11 @@ class _CrashFile:
         st = self.state
         st["step"] += 1
         if st["step"] == st["crash_at"]:
-            os._exit(9)
+            try:
+                self.f.close()      # an exception-style fault at close() still releases the descriptor
+            except Exception:
+                pass
+            _fault(st)
         return self.f.close()
 
     def tell(self):
@@ -346,6 +350,17 @@ class _CrashFile:
         self.close()
 
 
+def _fault(st):
+    """the injected fault: the process dies on the spot (crash variants), or the I/O call raises ENOSPC once and the process lives on
+    (exception variants: whatever clean-up / error path the code has runs - the files must still be a prefix of the record stream)"""
+    if st["variant"].startswith("exception"):
+        import errno
+        st["crash_at"] = -1
+        st["raised"] = True
+        raise OSError(errno.ENOSPC, "No space left on device (injected)")
+    os._exit(9)
+
+
 def _proxy_open(state):
     import builtins
 
@@ -353,7 +368,7 @@ def _proxy_open(state):
         state["step"] += 1
         state["opens"].append((str(path), mode))
         if state["step"] == state["crash_at"]:
-            os._exit(9)
+            _fault(state)
         return _CrashFile(builtins.open(path, mode, *a, **kw), state)
     return _open
 
@@ -438,7 +453,7 @@ def _crash(ctx, rng, dd, mx, params):
         return
     variant = params["variant"]
     for k in range(1, steps + 1):
-        for tb in ([1, 5, 11] if variant == "torn" else [0]):
+        for tb in ([1, 5, 11] if variant in ("torn", "exception_torn") else [0]):
             work = dd + f".k{k}.{tb}"
             shutil.copytree(dd, work)
             pid = os.fork()
@@ -449,8 +464,8 @@ def _crash(ctx, rng, dd, mx, params):
                 try:
                     _call(work, batch, mx)
                 except BaseException:
-                    os._exit(3)
-                os._exit(0)
+                    os._exit(4 if st.get("raised") else 3)
+                os._exit(5 if st.get("raised") else 0)
             _, status = os.waitpid(pid, 0)
             snap = _snapshot(work)
             shutil.rmtree(work, ignore_errors=True)
@@ -462,6 +477,9 @@ def _crash(ctx, rng, dd, mx, params):
             if code == 3:
                 ctx.count("crash.batch_raised_before_crash_point")
                 continue
+            if code == 5:
+                # the injected error was swallowed and the call carried on: then the WHOLE batch must be there (checked like a completed run)
+                ctx.count("crash.fault_swallowed")
             _check_crash_state(ctx, snap, before_files, full, where, variant)
 
 
